@@ -69,6 +69,10 @@ def evaluate(case):
                 continue
             bad("exception-escaped-%s:%s" % (o["op"][0], r[1]), result=r[:3] + [r[-1]])
     cancelled_by_user = set(o["op"][1] for o in ops if o["op"][0] == "cancel" and o["result"] == ["ok", True])
+    # "Attempting to cancel a future prevents any more retries, regardless of whether the cancel succeeds" (RetryExecutor docs):
+    # after a refused cancel the outcome is that of whichever attempt was the last one, which this model does not predict
+    has_retry = any(l["kind"] == "retry" for l in stack["layers"])
+    cancel_refused = set(o["op"][1] for o in ops if o["op"][0] == "cancel" and o["result"] == ["ok", False]) if has_retry else set()
     poll_faults = [(e[4]["exc"]) for e in s.events if e[3] == "poll_raise"]
     nt = False
     for o in ops:
@@ -93,6 +97,9 @@ def evaluate(case):
             continue
         # a raising poll call legitimately fails the futures it was shown
         if "exc" in st and st["exc"] in poll_faults:
+            continue
+        if f in cancel_refused:
+            info["refused_cancel_on_retry"] = True
             continue
         if exp.kind == "v":
             if st.get("value") != exp.value:
@@ -123,6 +130,8 @@ def account(ctx, case, viols, info, extra=()):
     if info.get("inconclusive"):
         ctx.inconclusive += 1
     cls = ["end:" + info["end"], "site:" + case.get("site", "?"), "preempt:%d" % min(info.get("preemptions", 0), 3)] + list(extra)
+    if info.get("refused_cancel_on_retry"):
+        cls.append("outcome-not-compared:refused-cancel-stops-retries")
     ctx.case(case, bool(info.get("nt")), cls, sample={"case": case})
     new = False
     for v in viols:
@@ -164,7 +173,10 @@ def case_strategy():
                 calls = [{}, {}]
                 if "poll-fn" in chosen:
                     calls = [{}] * draw(st.integers(0, 2)) + [{"raise": "Fault"}] + [{}]
-                cancel = [["raise", "Fault"]] if "cancel-fn" in chosen else None
+                    if draw(st.booleans()):
+                        # the fault at a chosen virtual time instead of a call index (so that it can meet a cancel in progress)
+                        calls = [{}, {"at": draw(st.sampled_from([0.1, 0.25, 0.5])), "raise": "Fault"}]
+                cancel = [["raise", "Fault"]] if "cancel-fn" in chosen else draw(st.sampled_from([None, None, [["ret", True]], [["vsleep", 0.5, ["ret", True]]]]))
                 L = {"kind": "poll", "interval": 0.25, "per_sub": dict((f + ".fn", {"after": draw(st.integers(1, 2))}) for f in fnames + ["probe"]), "calls": calls}
                 if cancel:
                     L["cancel"] = cancel
@@ -220,11 +232,11 @@ def catalog():
     out = {}
     pool = {"kind": "pool", "workers": 1}
 
-    def prog(layers, victim_spec, extra_thread=None, cbs=False):
+    def prog(layers, victim_spec, extra_thread=None, cbs=False, base=None):
         t0 = [["submit", "ex", "f0", victim_spec], ["add_cb", "f0", "cbA", ["raise", "Fault"]] if cbs else ["add_cb", "f0", "cbA"], ["add_cb", "f0", "cbB"]]
         t1 = [["submit", "ex", "f1", {"script": [["tag"]]}], ["add_cb", "f1", "cb1"]]
         threads = [t0, t1] + ([extra_thread] if extra_thread else [])
-        return {"setup": [["build", "ex", {"base": pool, "layers": layers}]], "threads": threads, "settle": 3.0,
+        return {"setup": [["build", "ex", {"base": base or pool, "layers": layers}]], "threads": threads, "settle": 3.0,
                 "final": [["submit", "ex", "probe", {"script": [["tag"]]}], ["sleep", 2.0], ["state", "f0"], ["state", "f1"], ["state", "probe"]]}
 
     R = {"kind": "retry", "policy": {"type": "exc", "max_attempts": 3, "sleep": 0.25, "exponent": 1.0, "base": ["E0"]}}
@@ -233,6 +245,17 @@ def catalog():
                                                 [["sleep", 0.25], ["cancel", "f0"], ["cancel", "f0"]])
     out["should_retry/retry"] = prog([R], {"script": [["raise", "E0"], ["tag"]], "retry_policy": {"type": "script", "should": ["raise"], "sleep": [0.25]}})
     out["sleep_time/retry"] = prog([R], {"script": [["raise", "E0"], ["tag"]], "retry_policy": {"type": "script", "should": [True, False], "sleep": ["raise"]}})
+    # the same two below a layer whose futures are library futures that are already done when the retry layer hooks them
+    # (sync base + map): the policy then runs on the retry executor's own thread, inside add_done_callback
+    M = {"kind": "map", "fn": [["app", "m"]], "err": None}
+    out["should_retry/sync+map+retry"] = prog([M, R], {"script": [["raise", "E0"], ["tag"]], "retry_policy": {"type": "script", "should": ["raise"], "sleep": [0.25]}},
+                                              base={"kind": "sync"})
+    out["sleep_time/sync+map+retry"] = prog([M, R], {"script": [["raise", "E0"], ["tag"]], "retry_policy": {"type": "script", "should": [True, False], "sleep": ["raise"]}},
+                                            base={"kind": "sync"})
+    # the poll function raises while a (slow, successful) cancel of one of the futures it was shown is in progress
+    out["poll-fn+slow-cancel/poll"] = prog([{"kind": "poll", "interval": 0.25, "per_sub": {"f0.fn": {"after": None}, "f1.fn": {"after": 3}},
+                                             "calls": [{}, {"at": 0.2, "raise": "Fault"}], "cancel": [["vsleep", 0.5, ["ret", True]]]}],
+                                           {"script": [["tag"]]}, [["sleep", 0.1], ["cancel", "f0"]])
     out["callback/map"] = prog([{"kind": "map", "fn": [["app", "m"]], "err": None}], {"script": [["tag"]]}, [["cancel", "f0"]], cbs=True)
     out["callback/retry+map"] = prog([R, {"kind": "map", "fn": [["app", "m"]], "err": None}], {"script": [["raise", "E0"], ["tag"]]}, None, cbs=True)
     out["map-fn/map+retry"] = prog([{"kind": "map", "fn": [["raiseif", "f0.fn", "Fault", ["app", "m"]]], "err": None}, R], {"script": [["tag"]]}, [["cancel", "f0"]])
